@@ -62,14 +62,16 @@ def list_part(ctx, nfiles):
         data = b""
         desc = []
         for s in range(nstreams):
-            n = rng.choice([0, 1, 100, 5000, 70000, rng.randrange(0, 300000)])
+            n = rng.choice([0, 1, 100, 5000, 12000, 70000, rng.randrange(0, 300000)])
             kind = rng.random()
             plain = (os.urandom(n) if kind < 0.3 else (b"abcdefgh" * (n // 8 + 1))[:n] if kind < 0.6 else
                      bytes(rng.randrange(97, 105) for _ in range(min(n, 20000))) * (n // 20000 + 1))[:n]
             args = [xz, "-c", "-T%d" % rng.choice([1, 1, 2, 4]), "-%d" % rng.choice([0, 1, 2])]
             chk = rng.choice(["none", "crc32", "crc64", "sha256"])
             args += ["-C", chk]
-            if rng.random() < 0.6:
+            if rng.random() < 0.08 and 0 < n <= 20000:
+                args += ["--block-size=%d" % rng.choice([1, 2, 7])]          # thousands of Blocks: an Index larger than xz's 8 KiB reads
+            elif rng.random() < 0.6:
                 args += ["--block-size=%d" % rng.choice([4096, 10000, 65536, 100000])]
             elif rng.random() < 0.5 and n > 10:
                 a = rng.randrange(1, n)
@@ -78,7 +80,9 @@ def list_part(ctx, nfiles):
             if r.returncode != 0:
                 return ("skip", i, "xz failed: %s" % r.stderr[:200])
             data += r.stdout
-            pad = 4 * rng.choice([0, 0, 1, 2, 7]) if (s + 1 < nstreams or rng.random() < 0.3) else 0
+            # Stream Padding: small, and sizes that put the Stream Footer / Index of the Stream before it just inside or
+            # outside the 8 KiB window xz --list reads backwards from the end
+            pad = 4 * rng.choice([0, 0, 1, 2, 7, 2040, 2041, 2042, 2043, 2044, 2045, 2046, 2047, 2048, 2049, 4095, 4096, rng.randrange(0, 5000)]) if (s + 1 < nstreams or rng.random() < 0.3) else 0
             data += b"\0" * pad
             desc.append("%dB/%s/pad%d %s" % (n, chk, pad, " ".join(args[2:])))
         path = os.path.join(d, "f%d.xz" % i)
